@@ -69,6 +69,7 @@ class SimLoop(asyncio.BaseEventLoop):
         self._capped = False
         self._externals = []       # handles to be inserted at a seeded ready position
         self.idle_jumps = 0
+        self.aborting = False      # set once SimDeadlock / IterationCap has been raised
         if self.cfg.eager:
             self.set_task_factory(asyncio.eager_task_factory)
 
@@ -95,6 +96,7 @@ class SimLoop(asyncio.BaseEventLoop):
     # -- hooks for subclasses ----------------------------------------------------------------
     def _nothing_to_do(self):
         """Called when the ready queue and the timer heap are both empty."""
+        self.aborting = True
         raise SimDeadlock(f"nothing runnable at t={self._vnow} iteration={self.iterations}")
 
     def _before_batch(self):
@@ -107,6 +109,7 @@ class SimLoop(asyncio.BaseEventLoop):
             if not self._capped:
                 self._capped = True
                 self.cfg.cap += 2000          # grace for the shutdown phase
+                self.aborting = True
                 raise IterationCap(f"iteration cap reached at t={self._vnow}")
             raise RuntimeError("iteration cap exceeded twice")
         for hook in self.pre_iteration:
